@@ -304,7 +304,7 @@ class Gen:
         """Sum of terms, each linear in exactly one active reference.
         mkref() -> text of a random active reference conformable with the
         LHS; mkstencil() -> another reference to the LHS variable."""
-        nterms = self.pick([1, 2, 3, 2, 1, 0, 4])
+        nterms = self.pick([2, 1, 3, 2, 2, 0, 4, 1])
         if nterms == 0:
             self.feat.add("zero_rhs")
             return self.lit("0.0")
@@ -313,7 +313,7 @@ class Gen:
 
         def newref():
             roll = self.draw(st.integers(0, 99))
-            if roll < 25:
+            if roll < 20:
                 self.feat.add("lhs_on_rhs")
                 return lhs
             if roll < 35 and mkstencil is not None:
@@ -403,7 +403,7 @@ class Gen:
         self.budget -= 1
         kinds = ["assign"] * 6 + ["zero", "section", "section", "temp"]
         if scope.depth < 3:
-            kinds += ["loop"] * 4 + ["if"] * 3
+            kinds += ["loop"] * 6 + ["if"] * 3
         if scope.idxvars or True:
             kinds += ["itemp"]
         kind = self.pick(kinds)
@@ -583,7 +583,7 @@ class Gen:
         negative = (isinstance(step, int) and step < 0) or \
                    (isinstance(step, str) and step.startswith("-"))
         start, stop = (high, low) if negative else (low, high)
-        if self.chance(12):
+        if self.chance(8):
             start, stop = stop, start
             self.feat.add("swapped_bounds")
         if step is not None and step not in (1, -1):
